@@ -202,7 +202,7 @@ def gen_consts():
     return out
 
 
-def coq_make(targets=None, timeout=3000):
+def coq_make(targets=None, timeout=6000):
     """(Re)build the Coq development; returns (ok, output)."""
     with Lock("coq"):
         write_coqproject()
@@ -210,7 +210,7 @@ def coq_make(targets=None, timeout=3000):
                 os.path.getmtime(os.path.join(COQ, "Makefile")) < os.path.getmtime(os.path.join(COQ, "_CoqProject")):
             sh("coq_makefile -f _CoqProject -o Makefile", cwd=COQ, check=True)
         # every coqc call gets a time limit and an address-space limit so that one runaway proof cannot stall a check
-        cmd = "ulimit -v 12000000; make -k -j %d COQC='timeout 900 coqc' %s" % (NCPU, " ".join(targets or []))
+        cmd = "ulimit -v 12000000; make -k -j %d COQC='timeout 1800 coqc' %s" % (NCPU, " ".join(targets or []))
         rc, out = sh(cmd, cwd=COQ, timeout=timeout)
         return rc == 0, out
 
